@@ -819,7 +819,7 @@ def replay(chk, path):
     else:
         print("replay: the recorded failure (%s) does not occur any more%s" % (
             rec["kind"], "; other failures: %s" % sorted(set(f[0] for f in fails)) if fails else ""))
-    return chk.finish(level="exploration")
+    return chk.finish(level="proof")
 
 
 def main():
@@ -919,7 +919,10 @@ def main():
     chk.assumptions += ["frontends.to_isar is the (trusted) statement of which isar text describes the same types as a prophy text",
                         "equality of the codecs is observed through the Python generator only; the C++ generators read the same model "
                         "(whose member shapes and layouts are compared)"]
-    return chk.finish(level="exploration")
+    # the tie of the theorems of props/C17.v: the real patch.patch() against model/PcPatch.v on generated member records
+    import patchcorr
+    patchcorr.run(chk, 600 if chk.tier == 'quick' else 6000)
+    return chk.finish(level="proof")
 
 
 if __name__ == "__main__":
